@@ -5,6 +5,8 @@ import WM.Lemmas.NumericField
 import WM.Lemmas.NumericFloat
 import WM.Lemmas.NumericUnguarded
 import WM.Lemmas.NumericMembership
+import WM.Lemmas.NumericDecimalRange
+import WM.Lemmas.NumericEqualBounds
 /-! C13 — numeric and date fields order and range-match exactly. -/
 namespace WM.C13
 open WM.Numeric WM.NumericSpec
@@ -725,5 +727,160 @@ example : (⟨0, 0, 0⟩ : TD).normal ∧ inDomain 64 true (tdToUsecs ⟨1, 0, 0
     inInterval tdLt (some ⟨0, 0, 0⟩) (some ⟨1, 0, 0⟩) true true ⟨0, 0, 1⟩ = true ∧
     inInterval tdLt (some ⟨0, 0, 0⟩) (some ⟨1, 0, 0⟩) true true ⟨1, 0, 0⟩ = false := by
   refine ⟨by simp [TD.normal], by decide, by decide, by decide⟩
+
+/-! ### round 4: the range query on Decimal fields as a whole -/
+
+/-- **`NumericRange` on a Decimal field** (`decimal_places = dc`, `w ∈ {1,2,4,8}` bytes, any
+    signedness and step): the composition of `decimal`, `prepare_number`'s truncation and
+    `range_query_int`.  For *arbitrary* rational bounds whose prepared values lie in the domain,
+    `_compile_query` succeeds and a document storing the scaled integer `x` (the Decimal
+    `x / 10^dc`) is matched iff `x` lies between the *truncated* scaled bounds — the exact behaviour;
+    and when every bound has at most `dc` places (`q = m / 10^dc`) this is membership of the
+    document's Decimal value in the interval of the Decimal bounds themselves. -/
+theorem range_query_decimal (w step dc : Nat) (hw : 0 < w) (hw' : 8 * w ≤ 256) (signed : Bool)
+    (start end_ : Option Rat) (sx ex : Bool) (x : Int)
+    (hs : ∀ q, start = some q → inDomain (8 * w) signed (decimalToInt dc q))
+    (he : ∀ q, end_ = some q → inDomain (8 * w) signed (decimalToInt dc q))
+    (hx : inDomain (8 * w) signed x) :
+    ∃ subs ts, compileDecimal w signed step dc start end_ sx ex = .ok subs ∧
+      indexTerms w step (toSortableInt (8 * w) signed x).toNat = .ok ts ∧
+      (matchesDoc subs ts = true ↔
+        inInterval intLt (start.map (decimalToInt dc)) (end_.map (decimalToInt dc)) sx ex x = true) ∧
+      ((∀ q, start = some q → ∃ m : Int, q = unprepareDecimal dc m) →
+       (∀ q, end_ = some q → ∃ m : Int, q = unprepareDecimal dc m) →
+        (matchesDoc subs ts = true ↔
+          inInterval ratLt start end_ sx ex (unprepareDecimal dc x) = true)) := by
+  have hs' : ∀ a, start.map (decimalToInt dc) = some a → inDomain (8 * w) signed a := by
+    intro a ha
+    cases start with
+    | none => simp at ha
+    | some q =>
+      simp only [Option.map_some, Option.some.injEq] at ha
+      subst ha; exact hs q rfl
+  have he' : ∀ a, end_.map (decimalToInt dc) = some a → inDomain (8 * w) signed a := by
+    intro a ha
+    cases end_ with
+    | none => simp at ha
+    | some q =>
+      simp only [Option.map_some, Option.some.injEq] at ha
+      subst ha; exact he q rfl
+  obtain ⟨subs, ts, h1, h2, h3⟩ :=
+    range_query_int w step hw hw' signed _ _ sx ex x hs' he' hx
+  refine ⟨subs, ts, by rw [compileDecimal_eq]; exact h1, h2, h3, ?_⟩
+  intro hS hE
+  have back : ∀ o : Option Rat, (∀ q, o = some q → ∃ m : Int, q = unprepareDecimal dc m) →
+      (o.map (decimalToInt dc)).map (unprepareDecimal dc) = o := by
+    intro o ho
+    cases o with
+    | none => rfl
+    | some q =>
+      obtain ⟨m, rfl⟩ := ho q rfl
+      simp only [Option.map_some, (decimal dc).1 m]
+  rw [h3, ← inInterval_rat_of_int (unprepareDecimal dc) (decimal dc).2, back start hS, back end_ hE]
+
+/-- Hypotheses satisfiable (two places, signed byte field, `{-0.05 TO 1.27]`): the stored `-5`
+    (`-0.05`) is outside, `0` is inside; and a bound with three places (`0.005`) is truncated to the
+    stored `0`, so `[0.005 TO …]` admits `0.00` — the recorded deviation, here in its exact form. -/
+example : ∃ subs ts,
+    compileDecimal 1 true 4 2 (some (unprepareDecimal 2 (-5))) (some (unprepareDecimal 2 127)) true false = .ok subs ∧
+    indexTerms 1 4 (toSortableInt (8 * 1) true 0).toNat = .ok ts ∧
+    (matchesDoc subs ts = true ↔
+      inInterval ratLt (some (unprepareDecimal 2 (-5))) (some (unprepareDecimal 2 127)) true false
+        (unprepareDecimal 2 0) = true) := by
+  obtain ⟨subs, ts, h1, h2, _, h4⟩ := range_query_decimal 1 4 2 (by decide) (by decide) true
+    (some (unprepareDecimal 2 (-5))) (some (unprepareDecimal 2 127)) true false 0
+    (by intro q h; cases h; rw [(decimal 2).1]; decide)
+    (by intro q h; cases h; rw [(decimal 2).1]; decide) (by decide)
+  exact ⟨subs, ts, h1, h2, h4 (by intro q h; cases h; exact ⟨_, rfl⟩) (by intro q h; cases h; exact ⟨_, rfl⟩)⟩
+
+example : inInterval intLt ((some ((5 : Rat) / 1000)).map (decimalToInt 2)) none false false 0 = true ∧
+    inInterval ratLt (some ((5 : Rat) / 1000)) none false false (unprepareDecimal 2 0) = false := by
+  decide +kernel
+
+/-! ### round 4: bounds that are equal as numbers but not as encodings -/
+
+/-- **Closed float range whose bounds are `==` in Python** (`start == end`, neither a NaN): by
+    `pyEq_iff` the bounds are the same pattern or the two zeros, and the compiled query matches a
+    document iff the encoded start is not above the encoded end and the document's value is one of
+    the two bounds.  So `[x TO x]` is the point query for the pattern `x`, `[-0.0 TO 0.0]` matches
+    exactly the documents holding `-0.0` **or** `+0.0`, and `[0.0 TO -0.0]` matches nothing: a single
+    term lookup of `start` (numeric equality taken for encoding equality) is wrong on the zeros. -/
+theorem range_query_float_equal_bounds (step a b v : Nat) (ha : a < 2 ^ 64) (hb : b < 2 ^ 64)
+    (hv : v < 2 ^ 64) (heq : pyEq a b = true) :
+    ∃ subs ts sb, compileFloat true step (some a) (some b) false false = .ok subs ∧
+      floatToSortable v true = .ok sb ∧ indexTerms 8 step sb.toNat = .ok ts ∧
+      (matchesDoc subs ts = true ↔ (totalLt b a = false ∧ (v = a ∨ v = b))) := by
+  obtain ⟨subs, ts, sb, h1, h2, h3, h4⟩ := range_query_float step (some a) (some b) false false v
+    (by intro x hx; cases hx; exact ha) (by intro x hx; cases hx; exact hb) hv
+  exact ⟨subs, ts, sb, h1, h2, h3, by rw [h4, equal_bounds_total a b v ha hb hv heq]⟩
+
+/-- Hypotheses satisfiable and both zero cases real: `-0.0 == 0.0`; `[-0.0 TO 0.0]` holds `+0.0`
+    (which the term of `-0.0` alone does not select), `[0.0 TO -0.0]` does not hold `+0.0`. -/
+example : pyEq 0x8000000000000000 0 = true ∧ pyEq 0 0x8000000000000000 = true ∧
+    pyEq 0x3ff0000000000000 0x3ff0000000000000 = true ∧
+    inInterval totalLt (some 0x8000000000000000) (some 0) false false 0 = true ∧
+    inInterval totalLt (some 0x8000000000000000) (some 0x8000000000000000) false false 0 = false ∧
+    inInterval totalLt (some 0) (some 0x8000000000000000) false false 0 = false := by decide
+
+example : ∃ subs ts sb, compileFloat true 4 (some 0x8000000000000000) (some 0) false false = .ok subs ∧
+    floatToSortable 0 true = .ok sb ∧ indexTerms 8 4 sb.toNat = .ok ts ∧
+    (matchesDoc subs ts = true ↔
+      (totalLt 0 0x8000000000000000 = false ∧ (0 = 0x8000000000000000 ∨ 0 = 0))) :=
+  range_query_float_equal_bounds 4 0x8000000000000000 0 0 (by decide) (by decide) (by decide) (by decide)
+
+/-! ### round 4: multi-valued float documents -/
+
+/-- **A multi-valued document on a signed float field** (`NUMERIC(float).index` on a list: every
+    value encoded by `float_to_sortable_long`, the tier terms of all values with shared terms
+    emitted once) matches the compiled range query iff at least one of its values lies in the
+    interval under the total order — for all patterns, steps, bounds and flags. -/
+theorem range_query_float_multi (step : Nat) (start end_ : Option Nat) (sx ex : Bool) (bs : List Nat)
+    (hs : ∀ a, start = some a → a < 2 ^ 64) (he : ∀ a, end_ = some a → a < 2 ^ 64)
+    (hbs : ∀ b ∈ bs, b < 2 ^ 64) :
+    ∃ subs sbs ts, compileFloat true step start end_ sx ex = .ok subs ∧
+      bs.mapM (fun b => floatToSortable b true) = .ok sbs ∧
+      indexTermsList 8 step (sbs.map Int.toNat) = .ok ts ∧
+      (matchesDoc subs ts = true ↔ ∃ b ∈ bs, inInterval totalLt start end_ sx ex b = true) := by
+  obtain ⟨subs, _, _, hsubs, _⟩ := range_query_float step start end_ sx ex 0 hs he (by decide)
+  have hm : bs.mapM (fun b => floatToSortable b true) = .ok (bs.map fsort) :=
+    mapM_ok _ _ bs (fun b hb => floatToSortable_signed b (hbs b hb))
+  have hX : ∀ X ∈ (bs.map fsort).map Int.toNat, X < 256 ^ 8 := by
+    intro X hXm
+    simp only [List.mem_map] at hXm
+    obtain ⟨_, ⟨b, hb, rfl⟩, rfl⟩ := hXm
+    have hr := fsort_range b (hbs b hb)
+    rw [pow256]; omega
+  obtain ⟨ts, hts, hiff⟩ := matchesDoc_list 8 step subs _ (by decide) hX
+  refine ⟨subs, _, ts, hsubs, hm, hts, ?_⟩
+  rw [hiff]
+  have key : ∀ b ∈ bs, (matchesDoc subs ((indexShifts (8 * 8) step).map (termOf 8 (fsort b).toNat)) = true ↔
+      inInterval totalLt start end_ sx ex b = true) := by
+    intro b hb
+    obtain ⟨subs', ts', sb, h1, h2, h3, h4⟩ := range_query_float step start end_ sx ex b hs he (hbs b hb)
+    rw [hsubs] at h1; injection h1 with h1; subst h1
+    rw [floatToSortable_signed b (hbs b hb)] at h2; injection h2 with h2; subst h2
+    have hXb : (fsort b).toNat < 256 ^ 8 := by
+      have hr := fsort_range b (hbs b hb)
+      rw [pow256]; omega
+    rw [show (if b < 2 ^ 63 then (b : Int) + 2 ^ 63 else 2 ^ 64 - 1 - (b : Int)) = fsort b from rfl,
+      indexTerms_ok 8 step _ (by decide) hXb] at h3
+    injection h3 with h3; subst h3
+    exact h4
+  constructor
+  · rintro ⟨X, hXm, hmm⟩
+    simp only [List.mem_map] at hXm
+    obtain ⟨_, ⟨b, hb, rfl⟩, rfl⟩ := hXm
+    exact ⟨b, hb, (key b hb).1 hmm⟩
+  · rintro ⟨b, hb, hmm⟩
+    exact ⟨(fsort b).toNat, List.mem_map.mpr ⟨_, List.mem_map.mpr ⟨b, hb, rfl⟩, rfl⟩, (key b hb).2 hmm⟩
+
+example : ∃ subs sbs ts, compileFloat true 4 (some 0x8000000000000000) (some 0) false true = .ok subs ∧
+    [0x3ff0000000000000, 0x8000000000000000, 0].mapM (fun b => floatToSortable b true) = .ok sbs ∧
+    indexTermsList 8 4 (sbs.map Int.toNat) = .ok ts ∧
+    (matchesDoc subs ts = true ↔ ∃ b ∈ [0x3ff0000000000000, 0x8000000000000000, 0],
+      inInterval totalLt (some 0x8000000000000000) (some 0) false true b = true) :=
+  range_query_float_multi 4 (some 0x8000000000000000) (some 0) false true
+    [0x3ff0000000000000, 0x8000000000000000, 0]
+    (by intro a h; cases h; decide) (by intro a h; cases h; decide) (by decide)
 
 end WM.C13
